@@ -24,6 +24,8 @@ func init() {
 }
 
 func runC01(c *Ctx) {
+	c.Rule("R14", "the cache rebuild at start-up consumes a reused read buffer only up to the count read (a restarted node proves the same events)", 1)
+	readerBufferDiscipline(c, "R14", []string{"balloon", "balloon/hyper", "balloon/history", "balloon/cache"})
 	c.Rule("R1", "history visitors: leaf=H(value‖pos), inner=H(L‖R‖pos), partial=H(L‖pos), identically in inserter, prover and verifier", 9)
 	c.Rule("R2", "hyper: hash steps only through the leaf/inner step constructors, salted with the step's own position", 3)
 	c.Rule("R3", "audit-path key agreement between the collecting side and the reading side", 5)
